@@ -311,6 +311,9 @@ class PathEnumerator:
                 out.extend(self.block(st.body, [pt], fr))
             if self.feasible(pe.cond):
                 pe.events.append(Event("branch", st, c, extra=False))
+                if not st.orelse and all(q.exit != "fall" for q in out):
+                    # ``if not isinstance(x, T): continue / return`` -- what follows runs only with x a T
+                    self._narrow(t_not(c))
                 out.extend(self.block(st.orelse, [pe], fr))
             return out
         if isinstance(st, (ast.For, ast.While)):
